@@ -218,10 +218,10 @@ Proof.
   - split; [intros []|intros (b & [] & _)].
   - destruct (persist c) as [v|] eqn:E.
     + cbn [In]. rewrite IH. split.
-      * intros [->|(b & Hb & Hp)]; [exists c; auto|exists b; auto].
+      * intros [->|(b & Hb & Hp)]; [exists c; split; [now left|exact E]|exists b; split; [now right|exact Hp]].
       * intros (b & [->|Hb] & Hp); [left; congruence|right; eauto].
     + rewrite IH. split.
-      * intros (b & Hb & Hp); exists b; auto.
+      * intros (b & Hb & Hp); exists b; split; [now right|exact Hp].
       * intros (b & [->|Hb] & Hp); [congruence|eauto].
 Qed.
 
@@ -363,4 +363,748 @@ Proof.
     unfold ExitReg. cbn [s_reg s_detached s_external]. rewrite disable_all_reg. auto.
 Qed.
 
+
+(* continuing from a prompt with no user breakpoint ahead: the exit is reported and the registry is
+   what disable_all_breakpoints makes of the prompt's registry *)
+Lemma continue_exitX : no_stutter tr -> forall s i m, Prompt s i m ->
+  next_hit tr (uaddrs (r_bps (s_reg s))) (S i) = None ->
+  exists s' r, continue_execution s = Ok (s', r) /\ exit_seen r /\ ExitedOK s' /\ ExitReg s s'.
+Proof.
+  intros NS s i m [Hst Hp Hi W St] Hn. set (bps := r_bps (s_reg s)) in *.
+  unfold BpMachine.continue_execution. rewrite Hst.
+  unfold step_over_breakpoint. rewrite Hp. cbn [p_pc BpMachineProofs.proc_at]. fold bps.
+  assert (Hloop: forall i0 m0, (i <= i0 <= S i)%nat -> (i0 < length tr)%nat -> WF bps m0 ->
+            (i0 = i -> ~ In (pc_at i) (addrs bps)) ->
+            exists s' r, cont_loop (loop_fuel tr) (with_bps s bps (proc_at m0 i0)) = Ok (s', r) /\
+                         exit_seen r /\ ExitedOK s' /\ ExitReg s s').
+  { intros i0 m0 Hi0 Hi0l W0 Hnot.
+    assert (St0: Steady bps i0) by (eapply steady_mono; [exact St|lia]).
+    pose proof (cont_steadyX NS (loop_fuel tr) i0 m0 (with_bps s bps (proc_at m0 i0))) as C.
+    cbn [with_bps with_rp s_reg s_proc r_bps] in C.
+    assert (Hfu: (loop_fuel tr > length tr - i0)%nat) by (unfold loop_fuel; lia).
+    specialize (C eq_refl Hi0l W0 St0 Hfu).
+    assert (Hsame: next_hit_from (uaddrs bps) (skipn i0 tr) i0 = None).
+    { rewrite <- Hn. unfold next_hit. destruct (Nat.eq_dec i0 i) as [E0|E0].
+      - subst i0. apply next_hit_from_skip; [lia|]. intros k Hk. assert (k = i) by lia. subst k.
+        apply not_true_is_false. intro H. apply memb_iff in H. apply uaddrs_sub in H. now apply Hnot.
+      - assert (i0 = S i) by lia. now subst. }
+    rewrite Hsame in C. destruct C as (s' & r & E & Hx & Hok & Hreg). exists s', r.
+    split; [exact E|]. split; [exact Hx|]. split; [exact Hok|]. exact Hreg. }
+  destruct (find_bp (pc_at i) bps) as [b|] eqn:Eb.
+  - destruct (find_bp_some' _ _ _ Eb) as [Hb Hab].
+    destruct (wf_bp _ _ _ W b Hb) as (Hen & _). rewrite Hen.
+    destruct (Nat.eq_dec (S i) (length tr)) as [Elast|Elast].
+    + destruct (step_over_core_exit code tr off has_place H_no_int3 H_mapped bps m i b W Elast Hb Hab) as (m1 & Ec).
+      rewrite Ec. cbn [bind fst snd].
+      eexists. eexists. split; [reflexivity|]. split; [right; reflexivity|].
+      split; [apply exit_by_step_ok|]. apply exit_by_step_reg; [exact Hb|apply W].
+    + assert (HSi: (S i < length tr)%nat) by lia.
+      destruct (step_over_core_once code tr off has_place H_no_int3 H_mapped bps m i b NS W HSi Hb Hab) as (m' & Ec & W' & Hm').
+      rewrite Ec. cbn [bind fst snd]. rewrite (put_bp_same bps b (wf_nodup _ _ _ W) Hb).
+      apply Hloop; auto; lia.
+  - cbn [bind fst snd]. apply Hloop; auto; try lia. intros _. now apply find_bp_none.
+Qed.
+
+(* ---------- views ---------- *)
+Definition pv (d : list ubp) : list (N * N) :=
+  map (fun u => (u_num u, ka u)) (filter (fun u => bty_eqb (u_ty u) TUser) d).
+
+Lemma pendv_pv : forall r, pendv r = pv (r_dis r).
+Proof. reflexivity. Qed.
+
+Lemma pending_addrs_pv : forall s a, In a (pending_addrs off s) <-> exists n, In (n, a) (pv (r_dis (s_reg s))).
+Proof.
+  intros s a. unfold pending_addrs, pv. rewrite in_map_iff. split.
+  - intros (u & E & Hu). exists (u_num u). apply in_map_iff. exists u. unfold ka. split; [now rewrite E|exact Hu].
+  - intros (n & H). apply in_map_iff in H. destruct H as (u & E & Hu). exists u. inversion E. split; [reflexivity|exact Hu].
+Qed.
+
+Lemma uaddrs_uviews : forall bps a, In a (uaddrs bps) <-> exists n, In (n, a) (uviews bps).
+Proof.
+  intros bps a. unfold uaddrs, uviews. rewrite in_map_iff. split.
+  - intros (b & E & Hb). exists (b_num b). apply in_map_iff. exists b. split; [now rewrite E|exact Hb].
+  - intros (n & H). apply in_map_iff in H. destruct H as (b & E & Hb). exists b. inversion E. split; [reflexivity|exact Hb].
+Qed.
+
+Lemma uviews_in : forall bps n a, In (n, a) (uviews bps) <-> exists b, In b bps /\ b_ty b = TUser /\ b_num b = n /\ b_addr b = a.
+Proof.
+  intros. unfold uviews, user_bps. rewrite in_map_iff. split.
+  - intros (b & E & Hb). apply filter_In in Hb. destruct Hb as [Hb Ht]. exists b. inversion E.
+    split; [exact Hb|]. split; [destruct (b_ty b); try discriminate; reflexivity|auto].
+  - intros (b & Hb & Ht & En & Ea). exists b. split; [now rewrite En, Ea|]. apply filter_In. split; [exact Hb|now rewrite Ht].
+Qed.
+
+Lemma pv_in : forall d n a, In (n, a) (pv d) <-> exists u, In u d /\ u_ty u = TUser /\ u_num u = n /\ ka u = a.
+Proof.
+  intros. unfold pv. rewrite in_map_iff. split.
+  - intros (u & E & Hu). apply filter_In in Hu. destruct Hu as [Hu Ht]. exists u. inversion E.
+    split; [exact Hu|]. split; [destruct (u_ty u); try discriminate; reflexivity|auto].
+  - intros (u & Hu & Ht & En & Ea). exists u. split; [now rewrite En, Ea|]. apply filter_In. split; [exact Hu|now rewrite Ht].
+Qed.
+
+Lemma nodup_map_filter : forall {A B} (f : A -> B) (g : A -> bool) l, NoDup (map f l) -> NoDup (map f (filter g l)).
+Proof.
+  intros A B f g. induction l as [|x t IH]; intros H; cbn [filter map]; [constructor|].
+  cbn [map] in H. inversion H; subst. destruct (g x); cbn [map]; [|auto]. constructor; [|auto].
+  intro Hin. apply H2. apply in_map_iff in Hin. destruct Hin as (y & E & Hy). apply filter_In in Hy.
+  apply in_map_iff. exists y. tauto.
+Qed.
+
+Definition ExitKeeps (s s' : bst) : Prop :=
+  Dormant (s_reg s') /\ (forall v, In v (pendv (s_reg s')) <-> In v (pendv (s_reg s))) /\
+  r_next (s_reg s') = r_next (s_reg s) /\ s_detached s' = s_detached s /\ s_external s' = s_external s.
+
+(* ---------- run / restart from a dormant registry ---------- *)
+Theorem runX : no_stutter tr -> (0 < length tr)%nat -> forall s, s_status s = Unload -> Dormant (s_reg s) ->
+  let U := pending_addrs off s in
+  match next_hit tr [entry] O with
+  | None => exists s' r, continue_execution s = Ok (s', r) /\ exit_seen r /\ ExitedOK s' /\ ExitKeeps s s'
+  | Some e =>
+      match next_hit tr U (S e) with
+      | Some j => exists m' b s', continue_execution s = Ok (s', CStop (StopBp (pc_at j) (b_num b))) /\
+                    Prompt s' j m' /\ r_dis (s_reg s') = [] /\ GoodReg (r_bps (s_reg s')) /\
+                    find_bp (pc_at j) (r_bps (s_reg s')) = Some b /\ b_ty b = TUser /\
+                    (forall v, In v (uviews (r_bps (s_reg s'))) <-> In v (pendv (s_reg s))) /\
+                    r_next (s_reg s') = r_next (s_reg s) /\ s_detached s' = s_detached s /\
+                    s_external s' = s_external s /\ s_fate s' = s_fate s
+      | None => exists s' r, continue_execution s = Ok (s', r) /\ exit_seen r /\ ExitedOK s' /\ ExitKeeps s s'
+      end
+  end.
+Proof.
+  intros NS Hlen s Hs [Hb He Ho HND] U. unfold BpMachine.continue_execution. rewrite Hs.
+  unfold enable_entry.
+  destruct (find (fun u => bty_eqb (u_ty u) TEntry) (r_dis (s_reg s))) as [u0|] eqn:Ef.
+  2:{ eapply find_none in Ef; [|exact He]. cbn in Ef. discriminate. }
+  apply find_some in Ef. destruct Ef as [Hu0 Ht0].
+  assert (u0 = eu).
+  { destruct (Ho u0 Hu0) as [|[Ht _]]; [assumption|]. rewrite Ht in Ht0. discriminate. }
+  subst u0. unfold try_into_brkpt. cbn [eu u_key u_ty u_num bind].
+  replace (entry - off + off) with entry by lia.
+  destruct (rd_some entry H_entry_readable) as [ce Hce].
+  assert (Wnil: WF [] (p_mem (fresh_proc code tr))).
+  { constructor; [constructor|intros b []|intro x; reflexivity]. }
+  destruct (add_and_enable_ok code off has_place [] (fresh_proc code tr) (mk_bp entry 0 0 false TEntry) ce) as (p1 & E1 & S1 & W1 & M1); auto.
+  rewrite Hb, E1. cbn [bind fst snd].
+  set (eb := bp_set (mk_bp entry 0 0 false TEntry) ce true) in *.
+  set (dis1 := del_dis (Glob (entry - off)) (r_dis (s_reg s))).
+  assert (Hins: ins_bp eb [] = [eb]) by reflexivity. rewrite Hins in *.
+  set (m1 := p_mem p1) in *.
+  assert (Hp1: p1 = proc_at m1 0).
+  { destruct p1 as [mm a1 ps1 pc1 ex1]. destruct S1 as (A&B&C&D). unfold fresh_proc in *. cbn in *. subst.
+    unfold BpMachineProofs.proc_at. f_equal. symmetry. now apply Nat.ltb_lt. }
+  (* the pending user breakpoints *)
+  assert (Hin1: forall u, In u dis1 <-> In u (r_dis (s_reg s)) /\ u <> eu).
+  { intro u. unfold dis1, del_dis. rewrite filter_In. split.
+    - intros [Hu Hk]. split; [exact Hu|]. intros ->. cbn in Hk. rewrite N.eqb_refl in Hk. discriminate.
+    - intros [Hu Hne]. split; [exact Hu|]. destruct (Ho u Hu) as [->|G]; [congruence|].
+      destruct G as (_ & _ & _ & Hnent & _). apply negb_true_iff.
+      destruct (u_key u) as [a|g] eqn:Ek; [reflexivity|]. cbn. apply N.eqb_neq. intro Eg. apply Hnent.
+      unfold ka. rewrite Ek. cbn. lia. }
+  assert (Hdis1: Forall GoodUX dis1).
+  { apply Forall_forall. intros u Hu. apply Hin1 in Hu. destruct Hu as [Hu Hne].
+    destruct (Ho u Hu) as [->|G]; [congruence|exact G]. }
+  assert (ND1: NoDup (map ka dis1)) by (apply nodup_map_filter; exact HND).
+  assert (Hpv1: forall v, In v (pv dis1) <-> In v (pendv (s_reg s))).
+  { intros [n a]. rewrite pendv_pv, !pv_in. split.
+    - intros (u & Hu & R). apply Hin1 in Hu. exists u. tauto.
+    - intros (u & Hu & Ht & R). exists u. split; [|auto]. apply Hin1. split; [exact Hu|]. intros ->. discriminate. }
+  assert (HU: forall a, In a U <-> exists u, In u dis1 /\ ka u = a).
+  { intro a. unfold U. rewrite pending_addrs_pv. split.
+    - intros (n & H). rewrite <- pendv_pv in H. apply Hpv1 in H. apply pv_in in H. destruct H as (u & Hu & _ & _ & Ea). eauto.
+    - intros (u & Hu & Ea). exists (u_num u). rewrite <- pendv_pv. apply Hpv1. apply pv_in. exists u.
+      rewrite Forall_forall in Hdis1. destruct (Hdis1 u Hu) as (Ht & _). auto. }
+  assert (Hkey1: ~ In (Glob (entry - off)) (map u_key dis1)).
+  { intro H. apply in_map_iff in H. destruct H as (u & Ek & Hu). unfold dis1, del_dis in Hu. apply filter_In in Hu.
+    destruct Hu as [_ Hk]. rewrite Ek in Hk. cbn in Hk. rewrite N.eqb_refl in Hk. discriminate. }
+  assert (Hent1: ~ In entry (map ka dis1)).
+  { intro H. apply in_map_iff in H. destruct H as (u & Ek & Hu). rewrite Forall_forall in Hdis1.
+    destruct (Hdis1 u Hu) as (_ & _ & _ & Hne & _). congruence. }
+  (* the state left by an exit before the entry point is reached *)
+  assert (HexitA: forall p', ExitKeeps s (let y := disable_all off (mk_reg [eb] dis1 (r_next (s_reg s))) p' in
+                             BpMachine.mk_st (fst y) (snd y) Exited (s_detached s) (s_external s) FReaped)).
+  { intro p'. unfold ExitKeeps. cbn zeta. cbn [s_reg s_detached s_external]. rewrite disable_all_reg. cbn [r_bps r_dis r_next].
+    assert (Ed: dis_of [eb] dis1 = eu :: dis1).
+    { cbn [ModelLifecycleX.dis_of]. unfold ModelLifecycleX.persist. cbn [b_ty eb bp_set b_addr].
+      unfold add_uninit. cbn [u_key]. rewrite del_dis_notin by exact Hkey1. reflexivity. }
+    rewrite Ed. split; [|split; [|auto]].
+    - constructor; cbn [r_bps r_dis]; [reflexivity|now left| |].
+      + intros u [<-|Hu]; [now left|]. right. rewrite Forall_forall in Hdis1. now apply Hdis1.
+      + cbn [map]. rewrite ka_eu. constructor; assumption.
+    - intro v. rewrite pendv_pv. cbn [r_dis]. unfold pv at 1. cbn [filter eu u_ty bty_eqb]. fold (pv dis1). apply Hpv1. }
+  (* first iteration of the loop: run to the entry point *)
+  unfold loop_fuel. remember (S (length tr)) as f1 eqn:Ef1. cbn [BpMachine.cont_loop s_proc]. rewrite Hp1. unfold fuel0.
+  rewrite (run_cpu_spec code tr H_no_int3 H_mapped [eb] m1 (S (length tr)) 0 W1 Hlen) by lia.
+  assert (Haddr: addrs [eb] = [entry]) by reflexivity. rewrite Haddr.
+  unfold next_hit. change (skipn 0 tr) with tr.
+  destruct (next_hit_from [entry] tr 0) as [e|] eqn:En.
+  2:{ cbn [fst snd]. eexists. eexists. split; [reflexivity|]. split; [left; reflexivity|].
+      split; [apply exit_state_ok|]. cbn [s_reg s_detached s_external]. fold dis1. apply HexitA. }
+  pose proof (next_hit_trace tr [entry] 0 e (Nat.le_0_l _) En) as (Hel & Hee & _).
+  apply memb_iff in Hee. destruct Hee as [Hee|[]].
+  cbn [fst snd]. rewrite trap_pc, trap_rewind. cbn [s_reg r_bps r_dis r_next].
+  rewrite <- Hee. unfold find_bp. cbn [find b_addr eb bp_set]. rewrite N.eqb_refl.
+  cbn [has_tmp existsb is_temp b_ty eb bp_set bty_eqb andb orb negb].
+  (* enable_all_breakpoints *)
+  assert (Hal0: p_alive (proc_at m1 e) = true) by (cbn [p_alive BpMachineProofs.proc_at]; apply Nat.ltb_lt; lia).
+  pose proof (enable_all_okX dis1 [eb] (proc_at m1 e) Hdis1 ND1 W1 Hal0) as EA. cbn zeta in EA.
+  fold dis1.
+  destruct (enable_all_from code off has_place dis1 [eb] (proc_at m1 e)) as [bps2 p2] eqn:Eea.
+  cbn [fst snd] in EA |- *. destruct EA as (W2 & S2 & (P1 & P2 & P3)).
+  (* the linker-map breakpoint *)
+  destruct (rd_some rbrk H_rbrk_readable) as [cr Hcr].
+  assert (Hal2: p_alive p2 = true) by (destruct S2 as (A&_); congruence).
+  destruct (add_and_enable_ok code off has_place bps2 p2 (mk_bp rbrk 0 0 false TLinker) cr W2 Hal2 H_rbrk_readable Hcr) as (p3 & E3 & S3 & W3 & M3).
+  rewrite E3. cbn [bind fst snd].
+  set (lb := bp_set (mk_bp rbrk 0 0 false TLinker) cr true) in *.
+  set (bps3 := ins_bp lb bps2) in *.
+  assert (Hp3: p3 = proc_at (p_mem p3) e).
+  { pose proof (sbm_trans _ _ _ S2 S3) as (A&B&C&D). clear - A B C D.
+    destruct p3 as [mm a1 ps1 pc1 ex1]. cbn [p_alive p_pos p_pc p_exec p_mem BpMachineProofs.proc_at] in *.
+    rewrite A, B, C, D. reflexivity. }
+  set (m3 := p_mem p3) in *.
+  (* facts about the registry after the entry-point handling *)
+  assert (Heb_in: In eb bps3).
+  { right. apply in_delbp. split.
+    - apply P2; [now left|]. exact Hent1.
+    - cbn. auto. }
+  assert (Hin3: forall b, In b bps3 -> b = lb \/ b = eb \/
+            (b_ty b = TUser /\ b_addr b <> rbrk /\ exists u, In u dis1 /\ b_addr b = ka u /\ b_num b = u_num u)).
+  { intros b [Hb3|Hb3]; [now left|]. apply in_delbp in Hb3. destruct Hb3 as [Hb3 Hnr]. right.
+    destruct (P1 b Hb3) as [[[Hbe|[]] _]|(Hty & Hex)]; [now left|]. right. cbn [b_addr lb bp_set] in Hnr. auto. }
+  assert (Hv3: forall v, In v (uviews bps3) <-> In v (pendv (s_reg s))).
+  { intros [n a]. rewrite <- Hpv1, uviews_in, pv_in. split.
+    - intros (b & Hb3 & Hty & En' & Ea). destruct (Hin3 b Hb3) as [->|[->|(_ & _ & u & Hu & Hk & Hn)]]; try discriminate.
+      exists u. rewrite Forall_forall in Hdis1. destruct (Hdis1 u Hu) as (Ht & _). split; [exact Hu|]. split; [exact Ht|]. split; congruence.
+    - intros (u & Hu & Ht & En' & Ea). destruct (P3 u Hu) as (b & Hb2 & Hty & Hab & Hnb).
+      exists b. split; [|split; [exact Hty|split; congruence]]. right. apply in_delbp. split; [exact Hb2|].
+      cbn [b_addr lb bp_set]. rewrite Forall_forall in Hdis1.
+      destruct (Hdis1 u Hu) as (_ & _ & _ & _ & Hnrb & _). congruence. }
+  assert (Hua: forall a, In a (uaddrs bps3) <-> In a U).
+  { intro a. rewrite uaddrs_uviews. unfold U. rewrite pending_addrs_pv. rewrite <- pendv_pv.
+    split; intros (n & H); exists n; apply Hv3; exact H. }
+  assert (G3: GoodReg bps3).
+  { constructor.
+    - exists eb. split; [exact Heb_in|]. split; reflexivity.
+    - intros b Hb3 Hty. destruct (Hin3 b Hb3) as [->|[->|(Hty' & _)]]; [discriminate|reflexivity|congruence].
+    - intros b Hb3. destruct (Hin3 b Hb3) as [->|[->|(Hty & _)]]; cbn; auto.
+    - intros b Hb3 Hty. destruct (Hin3 b Hb3) as [->|[->|(_ & _ & u & Hu & Hk & _)]]; try discriminate.
+      rewrite Forall_forall in Hdis1. destruct (Hdis1 u Hu) as (_ & _ & Hr & Hne & Hnr & Hof). rewrite Hk. auto. }
+  assert (St3: Steady bps3 (S e)).
+  { constructor.
+    - intros b Hb3. destruct (Hin3 b Hb3) as [->|[->|(Hty & _)]]; cbn; auto.
+    - intros b Hb3 Hty k Hk. destruct (Hin3 b Hb3) as [->|[->|(Hty' & _)]]; [discriminate| |congruence].
+      cbn [b_addr eb bp_set]. intro E. assert (k = e) by (apply H_entry_once; auto; lia). lia. }
+  (* what an exit after the entry point leaves *)
+  assert (HexitB: forall s', s_reg s' = mk_reg [] (dis_of bps3 []) (r_next (s_reg s)) ->
+             s_detached s' = s_detached s -> s_external s' = s_external s -> ExitKeeps s s').
+  { intros s' Hr Hd Hx. unfold ExitKeeps. rewrite Hr. cbn [r_next].
+    destruct (dis_of_good bps3 (r_next (s_reg s)) (wf_nodup _ _ _ W3) G3) as [D V].
+    split; [exact D|]. split; [|auto]. intro v. rewrite V. apply Hv3. }
+  (* step over the entry-point breakpoint *)
+  unfold step_over_breakpoint. rewrite Hp3. cbn [p_pc BpMachineProofs.proc_at]. rewrite <- Hee.
+  destruct (find_bp_in entry bps3) as [b0 Eb0].
+  { unfold addrs. apply in_map_iff. exists eb. split; [reflexivity|exact Heb_in]. }
+  rewrite Eb0. destruct (find_bp_some' _ _ _ Eb0) as [Hb0 Hab0].
+  destruct (wf_bp _ _ _ W3 b0 Hb0) as (Hen0 & _). rewrite Hen0.
+  assert (Hab0': b_addr b0 = pc_at e) by congruence.
+  assert (Hsame: forall i0, next_hit_from (uaddrs bps3) (skipn i0 tr) i0 = next_hit_from U (skipn i0 tr) i0).
+  { intro i0. apply next_hit_from_ext. intro a. apply memb_ext. exact Hua. }
+  destruct (Nat.eq_dec (S e) (length tr)) as [Elast|Elast].
+  - destruct (step_over_core_exit code tr off has_place H_no_int3 H_mapped bps3 m3 e b0 W3 Elast Hb0 Hab0') as (m4 & Ec).
+    rewrite Ec. cbn [bind fst snd]. rewrite Elast, skipn_all. cbn [next_hit_from].
+    eexists. eexists. split; [reflexivity|]. split; [right; reflexivity|]. split; [apply exit_by_step_ok|].
+    apply HexitB; [|reflexivity|reflexivity].
+    unfold exit_by_step. cbn [s_reg with_rp r_dis r_next]. rewrite disable_all_reg. cbn [r_bps r_dis r_next].
+    f_equal. apply dis_of_put. intros c Hc E. eapply in_addrs_unique; eauto. apply W3.
+  - assert (HSe: (S e < length tr)%nat) by lia.
+    destruct (step_over_core_once code tr off has_place H_no_int3 H_mapped bps3 m3 e b0 NS W3 HSe Hb0 Hab0') as (m4 & Ec & W4 & Hm4).
+    rewrite Ec. cbn [bind fst snd]. rewrite (put_bp_same bps3 b0 (wf_nodup _ _ _ W3) Hb0).
+    match goal with |- context [BpMachine.cont_loop _ _ _ _ _ _ ?f ?s2] =>
+      pose proof (cont_steadyX NS f (S e) m4 s2) as C end.
+    cbn [with_rp s_reg s_proc r_bps] in C.
+    assert (Hfu: (f1 > length tr - S e)%nat) by lia.
+    specialize (C eq_refl HSe W4 St3 Hfu). rewrite Hsame in C.
+    destruct (next_hit_from U (skipn (S e) tr) (S e)) as [j|] eqn:Enj.
+    + destruct C as (m' & b & E & F & T & W' & Hm').
+      apply next_hit_trace in Enj; [|lia]. destruct Enj as (Hj & _).
+      exists m', b. eexists. split; [exact E|].
+      split; [|split; [reflexivity|split; [exact G3|split; [exact F|split; [exact T|split; [exact Hv3|]]]]]].
+      * constructor; cbn [with_bps with_rp s_status s_proc s_reg r_bps]; auto; [lia|].
+        eapply steady_mono; [exact St3|lia].
+      * cbn [with_bps with_rp s_reg r_next s_detached s_external s_fate]. auto.
+    + destruct C as (s' & r & E & Hx & Hok & (Hr & Hd & Hxt)). exists s', r. split; [exact E|]. split; [exact Hx|].
+      split; [exact Hok|]. apply HexitB; [exact Hr|exact Hd|exact Hxt].
+Qed.
+
+
+(* ---------- C11: restart ---------- *)
+Lemma next_hit_ext_set : forall B B' k, (forall a, In a B <-> In a B') -> next_hit tr B k = next_hit tr B' k.
+Proof. intros. unfold next_hit. apply next_hit_from_ext. intro a. apply memb_ext. exact H. Qed.
+
+Lemma hits_from_ext : forall B B' l k, (forall a, In a B <-> In a B') -> hits_from B l k = hits_from B' l k.
+Proof.
+  intros B B' l. induction l as [|a t IH]; intros k H; [reflexivity|].
+  cbn [hits_from]. rewrite (memb_ext B B' a H). now rewrite (IH _ H).
+Qed.
+
+(* what `restart` (or the first `run`) must deliver, for the user's breakpoints V = (number, address)
+   pairs and U = their addresses: the new process runs the same native trace to the entry point,
+   arms everything there and stops at the first later position carrying a user breakpoint -- at a
+   Prompt (memory = image + patches, every breakpoint enabled, executed stream = native prefix) with
+   exactly the pairs V in the registry, the reported number being the one V gives to that address; or
+   the exit is reported with the program's code and the pairs V stay pending for the next run *)
+Definition RestartPost (V : list (N * N)) (U : list N) (x : res (bst * cres)) : Prop :=
+  let ExitCase := exists s' r, x = Ok (s', r) /\ exit_seen r /\ ExitedOK s' /\ Dormant (s_reg s') /\
+                    (forall v, In v (pendv (s_reg s')) <-> In v V) in
+  match next_hit tr [entry] O with
+  | None => ExitCase
+  | Some e =>
+      match next_hit tr U (S e) with
+      | Some j => exists m' b s', x = Ok (s', CStop (StopBp (pc_at j) (b_num b))) /\
+                    Prompt s' j m' /\ r_dis (s_reg s') = [] /\ GoodReg (r_bps (s_reg s')) /\
+                    find_bp (pc_at j) (r_bps (s_reg s')) = Some b /\ b_ty b = TUser /\
+                    In (b_num b, pc_at j) V /\
+                    (forall v, In v (uviews (r_bps (s_reg s'))) <-> In v V) /\
+                    s_external s' = false /\ s_fate s' = FTraced
+      | None => ExitCase
+      end
+  end.
+
+Lemma runX_post : no_stutter tr -> (0 < length tr)%nat -> forall s, s_status s = Unload -> Dormant (s_reg s) ->
+  s_external s = false -> s_fate s = FTraced ->
+  forall V U, (forall v, In v (pendv (s_reg s)) <-> In v V) -> (forall a, In a (pending_addrs off s) <-> In a U) ->
+  RestartPost V U (continue_execution s).
+Proof.
+  intros NS Hlen s Hs D Hx Hf V U HV HU. pose proof (runX NS Hlen s Hs D) as R. cbn zeta in R.
+  unfold RestartPost. cbn zeta.
+  destruct (next_hit tr [entry] 0) as [e|].
+  - rewrite <- (next_hit_ext_set _ _ (S e) HU).
+    destruct (next_hit tr (pending_addrs off s) (S e)) as [j|].
+    + destruct R as (m' & b & s' & E & P & Hd & G & F & T & Hv & _ & _ & Hx' & Hf').
+      exists m', b, s'. split; [exact E|]. split; [exact P|]. split; [exact Hd|]. split; [exact G|].
+      split; [exact F|]. split; [exact T|].
+      assert (Hvv: forall v, In v (uviews (r_bps (s_reg s'))) <-> In v V) by (intro v; rewrite Hv; apply HV).
+      split; [|split; [exact Hvv|split; congruence]].
+      apply Hvv. apply uviews_in. destruct (find_bp_some' _ _ _ F) as [Hb Ha]. exists b. auto.
+    + destruct R as (s' & r & E & Hxs & Hok & (Dm & Hv & _)). exists s', r. split; [exact E|]. split; [exact Hxs|].
+      split; [exact Hok|]. split; [exact Dm|]. intro v. rewrite Hv. apply HV.
+  - destruct R as (s' & r & E & Hxs & Hok & (Dm & Hv & _)). exists s', r. split; [exact E|]. split; [exact Hxs|].
+    split; [exact Hok|]. split; [exact Dm|]. intro v. rewrite Hv. apply HV.
+Qed.
+
+(* C11_restart_keeps, at a breakpoint stop *)
+Theorem restart_at_prompt : no_stutter tr -> (0 < length tr)%nat ->
+  forall s i m, Prompt s i m -> r_dis (s_reg s) = [] -> GoodReg (r_bps (s_reg s)) ->
+  RestartPost (uviews (r_bps (s_reg s))) (uaddrs (r_bps (s_reg s))) (restart_debugee s).
+Proof.
+  intros NS Hlen s i m P Hd G. unfold BpMachine.restart_debugee. rewrite (pr_status _ _ _ _ _ P).
+  rewrite disable_all_reg, Hd.
+  destruct (dis_of_good (r_bps (s_reg s)) (r_next (s_reg s)) (wf_nodup _ _ _ (pr_wf _ _ _ _ _ P)) G) as [D V].
+  apply runX_post; auto.
+  intro a. rewrite pending_addrs_pv, uaddrs_uviews. cbn [s_reg]. rewrite <- pendv_pv.
+  split; intros (n & H); exists n; apply V; exact H.
+Qed.
+
+(* C11_restart_keeps, after the program has exited (registry as an exit leaves it) *)
+Theorem restart_after_exit : no_stutter tr -> (0 < length tr)%nat ->
+  forall s, s_status s = Exited -> Dormant (s_reg s) ->
+  RestartPost (pendv (s_reg s)) (pending_addrs off s) (restart_debugee s).
+Proof.
+  intros NS Hlen s Hs D. unfold BpMachine.restart_debugee. rewrite Hs. cbn [fst snd].
+  apply runX_post; auto; intros; reflexivity.
+Qed.
+
+(* the first `run` of a launched program *)
+Theorem first_run : no_stutter tr -> (0 < length tr)%nat ->
+  forall s, s_status s = Unload -> Dormant (s_reg s) -> s_external s = false -> s_fate s = FTraced ->
+  RestartPost (pendv (s_reg s)) (pending_addrs off s) (continue_execution s).
+Proof. intros NS Hlen s Hs D Hx Hf. apply runX_post; auto; intros; reflexivity. Qed.
+
+(* same pairs => same projection of the native trace: with C01_continue at the new prompt, the stops
+   after the restart are the stops of the same breakpoints on the same trace *)
+Theorem same_views_same_stops : forall bps bps',
+  (forall v, In v (uviews bps') <-> In v (uviews bps)) ->
+  forall i, stops tr (uaddrs bps') i = stops tr (uaddrs bps) i /\
+            next_hit tr (uaddrs bps') i = next_hit tr (uaddrs bps) i.
+Proof.
+  intros bps bps' H i.
+  assert (Ha: forall a, In a (uaddrs bps') <-> In a (uaddrs bps)).
+  { intro a. rewrite !uaddrs_uviews. split; intros (n & Hn); exists n; apply H; exact Hn. }
+  split; [unfold stops; now apply hits_from_ext|now apply next_hit_ext_set].
+Qed.
+
+(* the exit of a run started from a prompt keeps the pairs pending *)
+Theorem exit_keeps_views : no_stutter tr -> forall s i m, Prompt s i m -> r_dis (s_reg s) = [] ->
+  GoodReg (r_bps (s_reg s)) -> next_hit tr (uaddrs (r_bps (s_reg s))) (S i) = None ->
+  exists s' r, continue_execution s = Ok (s', r) /\ exit_seen r /\ ExitedOK s' /\ Dormant (s_reg s') /\
+               (forall v, In v (pendv (s_reg s')) <-> In v (uviews (r_bps (s_reg s)))) /\
+               s_detached s' = s_detached s /\ s_external s' = s_external s.
+Proof.
+  intros NS s i m P Hd G Hn. destruct (continue_exitX NS s i m P Hn) as (s' & r & E & Hx & Hok & (Hr & Hdt & Hxt)).
+  exists s', r. split; [exact E|]. split; [exact Hx|]. split; [exact Hok|].
+  rewrite Hr, Hd.
+  destruct (dis_of_good (r_bps (s_reg s)) (r_next (s_reg s)) (wf_nodup _ _ _ (pr_wf _ _ _ _ _ P)) G) as [D V]. auto.
+Qed.
+
 End Restart.
+
+(* ====================================================================================== *)
+(* Part B: the exit code                                                                   *)
+(* ====================================================================================== *)
+Section ExitCode.
+Variable code : mem.
+Variable tr : list N.
+Variable rbrk off : N.
+Variable has_place : N -> bool.
+Variable exit_code : Z.
+
+Local Notation continue_execution := (continue_execution code tr rbrk off has_place exit_code).
+Local Notation restart_debugee := (restart_debugee code tr rbrk off has_place exit_code).
+Local Notation cont_loop := (cont_loop code tr rbrk off has_place exit_code).
+Local Notation apply_op := (apply_op code tr rbrk off has_place exit_code).
+Local Notation run_ops := (run_ops code tr rbrk off has_place exit_code).
+
+Ltac split_matches H :=
+  repeat (match type of H with
+          | context [match ?x with _ => _ end] =>
+              match x with
+              | context [match _ with _ => _ end] => fail 1
+              | _ => destruct x eqn:?
+              end
+          end; try discriminate).
+
+(* whatever the loop of continue_execution does, for whatever state and fuel: an exit stop carries
+   the exit status of the native run *)
+Lemma cont_loop_exit_code : forall fuel s s' c,
+  cont_loop fuel s = Ok (s', CStop (StopExit c)) -> c = exit_code.
+Proof.
+  induction fuel as [|f IH]; intros s s' c H; [discriminate|].
+  cbn [BpMachine.cont_loop] in H. unfold bind in H.
+  split_matches H; try (inversion H; reflexivity); try (eapply IH; eassumption).
+Qed.
+
+Lemma continue_exit_code : forall s s' c,
+  continue_execution s = Ok (s', CStop (StopExit c)) -> c = exit_code.
+Proof.
+  intros s s' c H. unfold BpMachine.continue_execution, bind in H.
+  split_matches H; try (inversion H; reflexivity); try (eapply cont_loop_exit_code; eassumption).
+Qed.
+
+Lemma restart_exit_code : forall s s' c,
+  restart_debugee s = Ok (s', CStop (StopExit c)) -> c = exit_code.
+Proof. intros s s' c H. unfold BpMachine.restart_debugee in H. eapply continue_exit_code; eassumption. Qed.
+
+Definition code_ok (o : outcome) : Prop :=
+  match o with OStop (StopExit c) => c = exit_code | OExit c => c = exit_code | _ => True end.
+
+Lemma lift_stop_code_ok : forall s r,
+  (forall s' c, r = Ok (s', CStop (StopExit c)) -> c = exit_code) ->
+  code_ok (snd (lift_stop exit_code s r)).
+Proof.
+  intros s r H. unfold lift_stop. destruct r as [[s' y]| | |]; cbn [snd fst]; try exact I.
+  destruct y as [x| |]; cbn; try exact I; [|reflexivity]. destruct x; try exact I. eapply H. reflexivity.
+Qed.
+
+Lemma apply_op_code_ok : forall s o, code_ok (snd (apply_op s o)).
+Proof.
+  intros s o. unfold BpMachine.apply_op.
+  destruct (s_detached s). { destruct o; exact I. }
+  destruct o.
+  - unfold add_at_addr. repeat match goal with |- context [match ?x with _ => _ end] => destruct x end; exact I.
+  - cbn [snd]. unfold res_outcome. destruct (snd _); exact I.
+  - cbn [snd]. unfold res_outcome. destruct (snd _); exact I.
+  - destruct (s_status s); try exact I; apply lift_stop_code_ok; intros; eapply continue_exit_code; eassumption.
+  - unfold stepi, res_outcome.
+    repeat match goal with |- context [match ?x with _ => _ end] => destruct x end; cbn [snd code_ok]; auto.
+  - unfold step_temps.
+    destruct (s_status s); try exact I.
+    destruct (snd (install_temps _ _ _ _ _)); try exact I.
+    destruct (BpMachine.continue_execution _ _ _ _ _ _ _) as [[s1 y]| | |] eqn:E; try exact I.
+    cbn [fst snd]. destruct y as [x| |]; try exact I; [|reflexivity].
+    destruct (match inject with Some k => _ | None => false end); try exact I.
+    destruct (s_status _); try exact I; destruct x; try exact I; cbn; eapply continue_exit_code; eassumption.
+  - destruct (s_status s); apply lift_stop_code_ok; intros;
+      first [eapply continue_exit_code; eassumption | eapply restart_exit_code; eassumption].
+  - exact I.
+  - exact I.
+Qed.
+
+(* C11_exit_code: over ALL command lists from ALL states, every exit the debugger reports (on_exit
+   hook / StopReason::DebugeeExit / Err(ProcessExit) after the exit handling) carries the exit status
+   of the native run -- also after restarts, steps over the last instruction, detach ... *)
+Theorem run_ops_exit_codes : forall ops s, Forall (fun c => c = exit_code) (exit_codes (snd (run_ops s ops))).
+Proof.
+  induction ops as [|o t IH]; intros s; [constructor|].
+  cbn [BpMachine.run_ops]. pose proof (apply_op_code_ok s o) as H.
+  destruct (snd (apply_op s o)) as [| | |x|c| | |] eqn:E; cbn [snd exit_codes filter_map]; try apply IH;
+    try constructor.
+  - destruct x; cbn; try apply IH. constructor; [exact H|apply IH].
+  - exact H.
+  - apply IH.
+Qed.
+
+End ExitCode.
+
+(* what the tracer makes of the final wait status (extension (1)): a normal exit is reported with
+   its code ... *)
+Theorem end_exited_reports_code : forall c, continue_at_end (WExited c) = (Some c, OStop (StopExit c)) /\
+  fst (continue_at_end (WExited c)) = Some (real_status (WExited c)).
+Proof. intro c. split; reflexivity. Qed.
+
+(* ... a program killed by a signal is not reported at all: `continue` returns Err(ProcessNotStarted),
+   no on_exit, no status *)
+Theorem C11_exit_code_signaled_refuted : exists w,
+  fst (continue_at_end w) = None /\ snd (continue_at_end w) = OErr E_NOT_STARTED /\ real_status w = 139%Z.
+Proof. exists (WSignaled 11). vm_compute. auto. Qed.
+
+(* `next` / `stepOut` during which the program ends: the core returns Err(ProcessExit(0)), the DAP
+   adapter turns it into `exited` with exitCode 0, whatever the program's status (7 here) *)
+Theorem C11_exit_code_step_refuted : exists tr ops,
+  let x := BpMachineProofs.wrun tr ops in
+  s_status (fst x) = Exited /\
+  option_map dap_step_exit_code (last_error (snd x)) = Some (Some 0%Z) /\
+  snd (BpMachineProofs.wrun tr [Add 20; Continue; Continue]) = [OAdded 1; OStop (StopBp 20 1); OStop (StopExit 7)].
+Proof. exists [10; 20; 30; 40], [Add 20; Continue; StepTemps [77] None]. vm_compute. auto. Qed.
+
+(* ====================================================================================== *)
+(* Part C: detach / drop of an attached (external) process                                  *)
+(* ====================================================================================== *)
+(* every watchpoint of the registry holds a debug register (true at every prompt of a running
+   process: a register is released only between an exit / restart and the next entry point) *)
+Definition Armed (w : Wp.st) : Prop := Forall (fun x => w_reg x <> None) (wps w).
+Definition armedb (w : Wp.st) : bool := forallb (fun x => match w_reg x with Some _ => true | None => false end) (wps w).
+Lemma armedb_sound : forall w, armedb w = true -> Armed w.
+Proof.
+  intros w H. unfold armedb in H. rewrite forallb_forall in H. apply Forall_forall. intros x Hx E.
+  specialize (H x Hx). rewrite E in H. discriminate.
+Qed.
+
+Definition tids (w : Wp.st) : list N := map fst (threads w).
+
+Lemma remove_at_0_armed : forall w x rest, wps w = x :: rest -> w_reg x <> None ->
+  exists w', remove_at w O = Ok w' /\ wps w' = rest /\ tids w' = tids w.
+Proof.
+  intros w x rest Hw Hr. unfold remove_at. rewrite Hw. cbn [nth_error firstn skipn app].
+  destruct (w_reg x) as [r|] eqn:Er; [|congruence]. unfold hw_disable. cbn [bind].
+  match goal with |- context [sync_all ?s0 ?h] => set (s1 := sync_all s0 h) end.
+  assert (H1: wps s1 = rest /\ tids s1 = tids w).
+  { subst s1. unfold sync_all, tids. cbn [wps threads with_wps]. split; [reflexivity|].
+    rewrite map_map. cbn [fst]. reflexivity. }
+  destruct (w_companion x) as [b|].
+  - destruct (decrease_rc_shape s1 b (w_num x)) as [cs ->]. eexists. split; [reflexivity|].
+    cbn [with_wps wps threads tids]. unfold tids in *. cbn [threads]. exact H1.
+  - eexists. split; [reflexivity|]. cbn [with_wps wps]. unfold tids in *. cbn [threads]. exact H1.
+Qed.
+
+Lemma clear_n_ok : forall n w, Inv w -> Armed w -> n = length (wps w) ->
+  exists w', clear_n n w = Ok w' /\ Inv w' /\ wps w' = [] /\ tids w' = tids w.
+Proof.
+  induction n as [|n IH]; intros w I A Hn.
+  - exists w. split; [reflexivity|]. split; [exact I|]. split; [|reflexivity].
+    destruct (wps w); [reflexivity|discriminate].
+  - destruct (wps w) as [|x rest] eqn:Hw; [discriminate|]. unfold Armed in A. rewrite Hw in A.
+    inversion A as [|? ? Hx Hrest]; subst.
+    destruct (remove_at_0_armed w x rest Hw Hx) as (w1 & E1 & Hw1 & Ht1).
+    cbn [clear_n]. rewrite E1.
+    destruct (IH w1) as (w' & E & I' & Hw' & Ht').
+    + eapply inv_remove_at; eassumption.
+    + unfold Armed. rewrite Hw1. exact Hrest.
+    + rewrite Hw1. cbn [length] in Hn. congruence.
+    + exists w'. split; [exact E|]. split; [exact I'|]. split; [exact Hw'|congruence].
+Qed.
+
+Lemma quiet_of_inv : forall w, Inv w -> wps w = [] ->
+  forall t h, In (t, h) (threads w) -> dr7_quiet (h_dr7 h) = true.
+Proof.
+  intros w I Hw t h Hin. destruct (i_thr _ I t h Hin) as [(_ & Hg & _) Hsame].
+  assert (Hl: forall r, valid_r r -> dr_enabled (h_dr7 h) r false = false).
+  { intros r Hr. specialize (Hsame r Hr). rewrite (i_act _ I r Hr) in Hsame.
+    unfold active_slot in Hsame. rewrite Hw in Hsame. cbn [find] in Hsame.
+    unfold slot_view in Hsame. destruct (dr_enabled (h_dr7 h) r false); [discriminate|reflexivity]. }
+  assert (Hgl: forall r, valid_r r -> dr_enabled (h_dr7 h) r true = false).
+  { intros r Hr. specialize (Hg r Hr). unfold gbit in Hg. cases_r Hr; exact Hg. }
+  unfold dr7_quiet. cbn [forallb].
+  rewrite (Hl 0), (Hl 1), (Hl 2), (Hl 3), (Hgl 0), (Hgl 1), (Hgl 2), (Hgl 3); unfold valid_r; auto 6.
+Qed.
+
+(* WatchpointRegistry::clear_all on a live process: no panic, no watchpoint left, every thread's
+   DR7 has all enable bits clear, no thread lost *)
+Theorem clear_all_quiet : forall w, Inv w -> Armed w ->
+  exists w', clear_all w = Ok w' /\ wps w' = [] /\ last_seen w' = None /\ tids w' = tids w /\
+             forall t h, In (t, h) (threads w') -> dr7_quiet (h_dr7 h) = true.
+Proof.
+  intros w I A. destruct (clear_n_ok (length (wps w)) w I A eq_refl) as (w1 & E & I1 & Hw1 & Ht1).
+  unfold clear_all. rewrite E. cbn [bind]. eexists. split; [reflexivity|].
+  cbn [with_wps wps last_seen threads]. split; [exact Hw1|]. split; [reflexivity|]. split; [exact Ht1|].
+  apply (quiet_of_inv w1 I1 Hw1).
+Qed.
+
+Lemma inv_attached : forall tds, tds <> [] -> Inv (wst_attached tds) /\ Armed (wst_attached tds).
+Proof.
+  intros tds Hne. split; [|constructor]. unfold wst_attached. split; cbn [threads wps last_seen].
+  - intro H. apply map_eq_nil in H. contradiction.
+  - intros t h Hin. apply in_map_iff in Hin. destruct Hin as (t0 & E & _). inversion E; subst.
+    split; [apply hw_zero_ok|]. intros r Hr. rewrite hw_zero_view by exact Hr.
+    unfold main_hw. cbn [threads]. destruct tds; [contradiction|]. cbn [map]. now rewrite hw_zero_view.
+  - intros r Hr. unfold main_hw, active_slot. cbn [threads wps find]. destruct tds; [contradiction|]. cbn [map].
+    now apply hw_zero_view.
+  - constructor.
+  - constructor.
+  - intros r Hr. unfold main_hw. cbn [threads]. destruct tds; [contradiction|]. cbn [map]. now apply hw_zero_view.
+Qed.
+
+Lemma armed_wstep : forall w o, Armed w -> Armed (fst (wstep w o)).
+Proof.
+  intros w o A. unfold Armed in *. destruct o; cbn [wstep].
+  - unfold add_addr. destruct (already_observed w addr); [exact A|].
+    destruct (hw_enable w addr size cond) as [[[s1 h] r]| | |] eqn:E; cbn [bind fst]; try exact A.
+    unfold hw_enable in E. destruct (free_register _); [|discriminate]. inversion E; subst.
+    cbn [with_wps wps sync_all]. apply Forall_app. split; [exact A|]. constructor; [discriminate|constructor].
+  - destruct (add_expr w addr size cond scope_end) as [s'| | |] eqn:E; cbn [fst];
+      try (destruct (add_expr_error_frame w addr size cond scope_end) as (_ & -> & _); exact A).
+    unfold add_expr in E. destruct (already_observed w addr); [discriminate|].
+    destruct (add_expr_prepare_shape w scope_end) as [bc [cs Hshape]].
+    destruct (add_expr_prepare w scope_end) as [s0 companion]. cbn [fst] in Hshape.
+    destruct (hw_enable s0 addr size cond) as [[[s1 h] r]| | |] eqn:E2; try discriminate.
+    unfold hw_enable in E2. destruct (free_register _); [|discriminate]. inversion E2; subst. inversion E; subst.
+    cbn [with_wps wps sync_all]. apply Forall_app. split; [exact A|]. constructor; [discriminate|constructor].
+  - unfold Wp.remove_by_num. destruct (position _ (wps w)) as [i|]; [|exact A].
+    destruct (remove_at w i) as [s'| | |] eqn:E; cbn [fst]; try exact A.
+    unfold remove_at in E. destruct (nth_error (wps w) i) as [x|]; [|discriminate].
+    unfold hw_disable in E. destruct (w_reg x); [|discriminate]. cbn [bind] in E.
+    destruct (w_companion x) as [b|].
+    + match type of E with context [decrease_rc ?a ?b ?c] => destruct (decrease_rc_shape a b c) as [cs Hs]; rewrite Hs in E end.
+      inversion E; subst. cbn [with_wps wps sync_all]. apply Forall_app. split; [now apply Forall_firstn|now apply Forall_skipn].
+    + inversion E; subst. cbn [with_wps wps sync_all]. apply Forall_app. split; [now apply Forall_firstn|now apply Forall_skipn].
+  - unfold Wp.remove_by_addr. destruct (position _ (wps w)) as [i|]; [|exact A].
+    destruct (remove_at w i) as [s'| | |] eqn:E; cbn [fst]; try exact A.
+    unfold remove_at in E. destruct (nth_error (wps w) i) as [x|]; [|discriminate].
+    unfold hw_disable in E. destruct (w_reg x); [|discriminate]. cbn [bind] in E.
+    destruct (w_companion x) as [b|].
+    + match type of E with context [decrease_rc ?a ?b ?c] => destruct (decrease_rc_shape a b c) as [cs Hs]; rewrite Hs in E end.
+      inversion E; subst. cbn [with_wps wps sync_all]. apply Forall_app. split; [now apply Forall_firstn|now apply Forall_skipn].
+    + inversion E; subst. cbn [with_wps wps sync_all]. apply Forall_app. split; [now apply Forall_firstn|now apply Forall_skipn].
+  - exact A.
+  - unfold exit_thread. destruct (threads w); exact A.
+Qed.
+
+(* any watchpoint / thread history of an attached process *)
+Theorem attached_wrun_ok : forall ops tds, tds <> [] -> Forall valid_op ops ->
+  Inv (Wp.wrun ops (wst_attached tds)) /\ Armed (Wp.wrun ops (wst_attached tds)).
+Proof.
+  intros ops tds Hne V. destruct (inv_attached tds Hne) as [I A]. split; [now apply inv_wrun|].
+  clear I V. revert A. generalize (wst_attached tds). induction ops as [|o t IH]; intros w A; [exact A|].
+  cbn [Wp.wrun fold_left]. apply IH. now apply armed_wstep.
+Qed.
+
+Section External.
+Variable code : mem.
+Variable tr : list N.
+Variable off : N.
+
+Local Notation WF := (WF code).
+Local Notation Prompt := (Prompt code tr).
+
+(* the released process: alive and running on its own, original code, empty breakpoint table, no
+   watchpoint, quiet DR7 in every thread, every thread still there *)
+Definition Survives (w : Wp.st) (x' : world) : Prop :=
+  s_fate (w_bp x') = FReleased /\ p_alive (s_proc (w_bp x')) = true /\
+  (forall a, p_mem (s_proc (w_bp x')) a = code a) /\ r_bps (s_reg (w_bp x')) = [] /\
+  wps (w_wp x') = [] /\ tids (w_wp x') = tids w /\
+  (forall t h, In (t, h) (threads (w_wp x')) -> dr7_quiet (h_dr7 h) = true).
+
+(* a stopped, live debuggee whose memory is image + patches of its registry: every Prompt, but also a
+   stop with temporaries left behind by a failed step (C02_error_paths) *)
+Definition StoppedWF (s : bst) : Prop :=
+  s_status s = InProgress /\ p_alive (s_proc s) = true /\ WF (r_bps (s_reg s)) (p_mem (s_proc s)).
+
+Lemma prompt_stopped : forall s i m, Prompt s i m -> StoppedWF s.
+Proof.
+  intros s i m [Hst Hp Hi W St]. unfold StoppedWF. rewrite Hp. cbn [p_alive p_mem BpMachineProofs.proc_at].
+  split; [exact Hst|]. split; [now apply Nat.ltb_lt|exact W].
+Qed.
+
+Lemma disable_all_alive : forall l dis p, p_alive (snd (disable_all_from off l dis p)) = p_alive p.
+Proof.
+  induction l as [|b t IH]; intros dis p; [reflexivity|]. cbn [disable_all_from]. rewrite IH.
+  unfold bp_disable, peek, poke, bind. destruct (p_alive p) eqn:Ea; [|reflexivity].
+  destruct (read_bytes (p_mem p) (b_addr b) word_offsets) as [[|lo hi]|]; try reflexivity; cbn [fst]; try exact Ea.
+  rewrite Ea. reflexivity.
+Qed.
+
+(* C11_external_survives, Detach *)
+Theorem detach_external_survives : forall s w, StoppedWF s -> s_detached s = false -> Inv w -> Armed w ->
+  exists x', detach_w off (mk_world s w) = Ok x' /\ Survives w x' /\ s_detached (w_bp x') = true.
+Proof.
+  intros s w (Hst & Hal & W) Hd I A. destruct (clear_all_quiet w I A) as (w' & E & Hw & _ & Ht & Hq).
+  unfold detach_w, clear_for. cbn [w_bp w_wp]. rewrite Hd, Hst, E. cbn [bind]. eexists. split; [reflexivity|].
+  unfold Survives, detach. cbn [w_bp w_wp]. rewrite Hd, Hst. cbn [s_fate s_proc s_reg s_detached].
+  unfold disable_all. cbn [fst snd r_bps]. rewrite disable_all_alive.
+  split; [|reflexivity]. split; [reflexivity|]. split; [exact Hal|]. split; [|auto].
+  intro a. eapply (disable_all_from_clean code off off (fun _ => true)); [exact Hal|exact W|reflexivity].
+Qed.
+
+(* C11_external_survives, quit / drop of the debugger *)
+Theorem drop_external_survives : forall s w, StoppedWF s -> s_detached s = false -> s_external s = true ->
+  Inv w -> Armed w ->
+  exists x', drop_w off (mk_world s w) = Ok x' /\ Survives w x'.
+Proof.
+  intros s w (Hst & Hal & W) Hd Hx I A. destruct (clear_all_quiet w I A) as (w' & E & Hw & _ & Ht & Hq).
+  unfold drop_w, clear_for. cbn [w_bp w_wp]. rewrite Hd, Hx, Hst, E. cbn [bind]. eexists. split; [reflexivity|].
+  unfold Survives, drop. cbn [w_bp w_wp]. rewrite Hd, Hx, Hst. cbn [s_fate s_proc s_reg].
+  unfold disable_all. cbn [fst snd r_bps]. rewrite disable_all_alive.
+  split; [reflexivity|]. split; [exact Hal|]. split; [|auto].
+  intro a. eapply (disable_all_from_clean code off off (fun _ => true)); [exact Hal|exact W|reflexivity].
+Qed.
+
+(* a launched debuggee at the same kind of stop: killed and reaped; its debug registers were
+   cleared before (no panic) *)
+Theorem drop_launched_reaped : forall s w, StoppedWF s -> s_detached s = false -> s_external s = false ->
+  Inv w -> Armed w ->
+  exists x', drop_w off (mk_world s w) = Ok x' /\ s_fate (w_bp x') = FReaped /\ wps (w_wp x') = [].
+Proof.
+  intros s w (Hst & Hal & W) Hd Hx I A. destruct (clear_all_quiet w I A) as (w' & E & Hw & _).
+  unfold drop_w. cbn [w_bp w_wp]. rewrite Hd, Hx, Hst, E. cbn [bind]. eexists. split; [reflexivity|].
+  unfold drop. cbn [w_bp w_wp]. rewrite Hd, Hx, Hst. cbn [s_fate]. auto.
+Qed.
+
+(* the other states of the history ------------------------------------------------------------ *)
+(* after the attached program has exited there is nothing to release: detach and drop change neither
+   the fate (reaped at the exit) nor panic, the watchpoint vector is emptied *)
+Theorem detach_drop_after_exit : forall s w, s_status s = Exited -> s_detached s = false ->
+  (exists x', detach_w off (mk_world s w) = Ok x' /\ s_fate (w_bp x') = s_fate s /\ wps (w_wp x') = []) /\
+  (s_external s = true -> exists x', drop_w off (mk_world s w) = Ok x' /\ s_fate (w_bp x') = s_fate s /\ wps (w_wp x') = []).
+Proof.
+  intros s w Hst Hd. split.
+  - unfold detach_w, clear_for. cbn [w_bp w_wp]. rewrite Hd, Hst. cbn [bind]. eexists. split; [reflexivity|].
+    unfold detach. rewrite Hd, Hst. cbn. auto.
+  - intro Hx. unfold drop_w, clear_for. cbn [w_bp w_wp]. rewrite Hd, Hx, Hst. cbn [bind]. eexists. split; [reflexivity|].
+    unfold drop. rewrite Hd, Hx, Hst. cbn. auto.
+Qed.
+
+(* once detached, every later detach / quit is a no-op: the released process is not touched again *)
+Theorem after_detach_noop : forall x, s_detached (w_bp x) = true ->
+  detach_w off x = Ok x /\ drop_w off x = Ok x.
+Proof. intros x H. unfold detach_w, drop_w. rewrite H. auto. Qed.
+
+End External.
+
+(* an attached process is at a prompt the moment the debugger has attached (position i of its run) *)
+Theorem attached_is_prompt : forall code tr entry off i, (i < length tr)%nat ->
+  Prompt code tr (init_attached code tr entry off i) i code /\
+  s_external (init_attached code tr entry off i) = true /\ s_detached (init_attached code tr entry off i) = false.
+Proof.
+  intros code tr entry off i Hi. split; [|split; reflexivity].
+  constructor; cbn [init_attached s_status s_proc s_reg r_bps]; auto.
+  - constructor; [constructor|intros b []|intro x; reflexivity].
+  - constructor; intros b [].
+Qed.
+
+(* a watchpoint whose register was released (program exit / restart, clear_local_disable_global) makes
+   clear_all panic if it runs while a process exists: Drop / detach reach hw.disable's
+   `expect("should exist")`.  Reachable only between DebugeeStart and the entry point. *)
+Theorem clear_all_unarmed_panics : exists w, clear_all w = Panic 2.
+Proof.
+  exists (Wp.mk_st [(5, hw_zero)] [mk_wp 1 4096 SIZE_Bytes8 COND_DataWrites None None] None 2 1 []).
+  vm_compute. reflexivity.
+Qed.
